@@ -52,6 +52,8 @@ struct C<'a> {
     h: smoltcp::iface::SocketHandle,
     qs: Vec<Q>,
     pending_rx: Vec<(i64, Vec<u8>)>,
+    /// configured servers the stack keeps (DNS_MAX_SERVER_COUNT)
+    n_servers: usize,
 }
 
 impl<'a> C<'a> {
@@ -91,13 +93,13 @@ pub fn run(tape: &mut Tape, props: Props, thorough: bool, trace_on: bool) -> Out
         }
     };
     // DNS_MAX_SERVER_COUNT is 1 in the shipped configuration; passing more exercises truncation
-    let nserv = 1 + tape.draw(2) as usize;
+    let nserv = 1 + tape.draw(3) as usize;
     let servers: Vec<IpAddr> = (0..nserv).map(|i| mk(53 + i as u8)).collect();
     let smol_servers: Vec<smoltcp::wire::IpAddress> = servers.iter().map(to_smol).collect();
     let sock = dns::Socket::new(&smol_servers, vec![]);
     let h = node.sockets.add(sock);
     let desc = format!("dns dual-stack={} v6={} servers={:?}", dual, v6, servers);
-    let mut c = C { tape, props, node, view, now: 1_000_000, stats: Stats::default(), hash: LogHash::new(), trace: vec![], trace_on, events: 0, v, servers: servers[..1].to_vec(), h, qs: vec![], pending_rx: vec![] };
+    let mut c = C { tape, props, node, view, now: 1_000_000, stats: Stats::default(), hash: LogHash::new(), trace: vec![], trace_on, events: 0, v, servers: servers[..1].to_vec(), h, qs: vec![], pending_rx: vec![], n_servers: nserv.min(cfg_value("DNS_MAX_SERVER_COUNT", 1)) };
     let mut r = body(&mut c, thorough);
     // "no response content can make processing panic or loop" is part of C19 itself
     if let Err(v) = &mut r {
@@ -443,7 +445,10 @@ fn check_results(c: &mut C) -> Result<(), Violation> {
             Err(dns::GetQueryResultError::Pending) => {
                 // termination bound
                 let q = &c.qs[i];
-                let bound = 1 * 20_000_000 + 5_000_000 + 15_000_000;
+                // per destination: transmissions at 0, 1, 3, 7 s and the 10 s time-out (acted upon at the next
+                // wake-up); destinations = configured servers the build keeps, or the two mDNS groups
+                let dests = if q.mdns { 2 } else { c.n_servers.max(1) } as i64;
+                let bound = dests * 15_000_000 + 25_000_000;
                 if c.props.has("C19") && c.now - q.started > bound {
                     return Err(viol("C19", "termination", "C19.termination/query-still-pending", format!("query {:?} still pending {} s after it was started (polled per poll_at)", q.name, (c.now - q.started) / 1_000_000)));
                 }
